@@ -28,6 +28,17 @@ Theorem C20_emit_frame : forall P (E : iengine P) q st c h a st' c' h' out,
 Proof. exact iso_process_frame. Qed.
 Print Assumptions C20_emit_frame.
 
+(* the row a direct query gives to its sink (or returns from EmitSync) is a map allocated by that Emit:
+   its address is none of the older ones, so a receiver that overwrites the row it was given (with any
+   content r) changes no map that existed before - in particular not the caller's *)
+Theorem C20_delivered_row_fresh : forall P (E : iengine P) q st c h a st' c' h' d,
+  iq_window q = false ->
+  iso_process E true q st c h a = (st', c', h', Some d) ->
+  length h <= d /\ d < length h' /\
+  forall r b, b < length h -> iso_hget (iso_hput h' d r) b = iso_hget h b.
+Proof. exact iso_delivered_fresh. Qed.
+Print Assumptions C20_delivered_row_fresh.
+
 (* rows given to a sink, and the callers' maps, during a history are not altered by anything any
    instance of the process does afterwards *)
 Theorem C20_sink_rows_stable : forall P (E : iengine P) qs evs1 evs2 s0 s1 os1 s2 os2,
